@@ -224,9 +224,40 @@ func appendedValues(v ssa.Value) []ssa.Value {
 
 // hasOriginCall: some origin of v is result idx (or any when idx<0) of a call named name.
 func hasOriginCall(v ssa.Value, name string, idx int) *ssa.Call {
-	for _, o := range origins(v) {
+	return hasOriginCallDepth(v, name, idx, 0)
+}
+
+// hasOriginCallDepth also looks through same-package helpers: when the value is result k of a
+// helper of the same package, the origins of what that helper returns as result k count (depth 2),
+// so that extracting a block into a helper does not hide where a value comes from.
+func hasOriginCallDepth(v ssa.Value, name string, idx int, depth int) *ssa.Call {
+	os := origins(v)
+	for _, o := range os {
 		if o.Kind == "call" && o.Name == name && (idx < 0 || o.Idx == idx) {
 			return o.Val.(*ssa.Call)
+		}
+	}
+	if depth >= 2 {
+		return nil
+	}
+	for _, o := range os {
+		if o.Kind != "call" {
+			continue
+		}
+		cv, ok := o.Val.(*ssa.Call)
+		if !ok {
+			continue
+		}
+		callee := cv.Common().StaticCallee()
+		if callee == nil || len(callee.Blocks) == 0 || cv.Parent() == nil || callee.Pkg == nil || callee.Pkg != cv.Parent().Pkg {
+			continue
+		}
+		for _, r := range Returns(callee) {
+			if o.Idx < len(r.Results) {
+				if found := hasOriginCallDepth(ReturnResult(r, o.Idx), name, idx, depth+1); found != nil {
+					return found
+				}
+			}
 		}
 	}
 	return nil
